@@ -1,37 +1,11 @@
 /- L0 facts about the generated FastStochastic (any `[Scalar F]`): Minimum + Maximum wiring. -/
+import TaRs.Lemmas.Core.FastStochastic
 import TaRs.Gen.FastStochastic
 import TaRs.Lemmas.Minimum
 import TaRs.Lemmas.Maximum
 namespace TaRs.Gen.FastStochastic
 open TaRs TaRs.Rs
 variable {F : Type} [Scalar F]
-
-/-- the state `new(period)` builds -/
-def fresh (p : Nat) : FastStochastic F :=
-  { period := p, minimum := Minimum.fresh p, maximum := Maximum.fresh p }
-
-/-- both windows well-formed, and of the length the struct separately records -/
-structure WF (s : FastStochastic F) : Prop where
-  min : Minimum.WF s.minimum
-  max : Maximum.WF s.maximum
-  pmin : s.minimum.period = s.period
-  pmax : s.maximum.period = s.period
-
-/-- `Minimum::new(period)?` runs first, then `Maximum::new(period)?`; both fail on exactly the same
-    arguments (0 → Err, `period * 8 > isize::MAX` → capacity-overflow panic), so the order is not
-    observable here. -/
-theorem new_eq (p : Nat) :
-    (new p : Res (FastStochastic F)) =
-      if p = 0 then .err .InvalidParameter
-      else if p * 8 ≤ isizeMax then .ok (fresh p) else .panic := by
-  unfold new
-  rw [Minimum.new_eq, Maximum.new_eq]
-  by_cases h0 : p = 0
-  · simp [h0, bind, Res.bind]
-  · by_cases h1 : p * 8 ≤ isizeMax <;> simp [h0, h1, bind, Res.bind, fresh]
-
-theorem fresh_wf (p : Nat) (hp : 0 < p) (h8 : p * 8 ≤ isizeMax) : WF (fresh p : FastStochastic F) :=
-  ⟨Minimum.fresh_wf p hp h8, Maximum.fresh_wf p hp h8, rfl, rfl⟩
 
 omit [Scalar F] in
 theorem WF.pos {s : FastStochastic F} (h : WF s) : 0 < s.period := h.pmin ▸ h.min.pos
@@ -78,8 +52,5 @@ theorem nextBar_total (s : FastStochastic F) (b : Bar F) (h : WF s) :
   obtain ⟨⟨mn', lo⟩, e1, w1, p1⟩ := Minimum.next_total s.minimum b.low h.min
   obtain ⟨⟨mx', hi⟩, e2, w2, p2⟩ := Maximum.next_total s.maximum b.high h.max
   exact ⟨_, nextBar_wiring s b mn' lo mx' hi e1 e2, ⟨w1, w2, p1.trans h.pmin, p2.trans h.pmax⟩, rfl⟩
-
-omit [Scalar F] in
-theorem period_fn_eq (s : FastStochastic F) : s.period_fn = s.period := rfl
 
 end TaRs.Gen.FastStochastic
